@@ -238,6 +238,9 @@ func checkRHP2(c R2Case) error {
 
 	// connections
 	ca, cb, dl := newMemPipe()
+	// two sessions in three run over a segmented connection (segment sizes from one byte to a jumbo frame)
+	segs := []int{0, 0, 1, 3, 16, 17, 536, 1448, 1460, 4096, 9000}
+	dl.seg = [2]int{segs[int(c.Seed>>16)%len(segs)], segs[int(c.Seed>>24)%len(segs)]}
 	var fc *faultConn
 	faultMsg, faultSide := -1, -1
 	var connA, connB net.Conn = ca, cb
